@@ -1,13 +1,13 @@
 SPECIFICATION Spec
 CONSTANTS
-  Ls <- LsQ
+  Ls <- LsQ0
   Bszs <- BszAll
   D = 2
   Caps <- CapsQ
   B0s <- B0Q
   Modes <- ModesAll
   MaxSweeps = 3
-  MinExtra = 1
+  MinExtra = 0
   Ranks = "max"
   Mutant = "none"
   Emit = FALSE
@@ -17,5 +17,5 @@ INVARIANT PosInRange
 INVARIANT SweepOrder
 INVARIANT ReportedIsCurrent
 INVARIANT BondCap
-INVARIANT EndNormalized
+INVARIANT EndNormalizedAnyCap
 CHECK_DEADLOCK FALSE
